@@ -536,21 +536,27 @@ nfa, with no epsilon transition
         False
 
         """
-        enfa = self.copy()
+        # Flipping the final states is only correct on a deterministic
+        # automaton without epsilon transitions
+        enfa = self.to_deterministic().copy()
+        for symbol in self._input_symbols:
+            enfa.add_symbol(symbol)
+        states = enfa.states.copy()
+        finals = enfa.final_states.copy()
         trash = State("TrashNode")
+        while trash in states:
+            trash = State(str(trash.value) + "'")
+        if not enfa.start_states:
+            enfa.add_start_state(trash)
         enfa.add_final_state(trash)
-        for state in self._states:
-            if state in self._final_states:
+        for state in states:
+            if state in finals:
                 enfa.remove_final_state(state)
             else:
                 enfa.add_final_state(state)
-        for state in self._states:
+        for state in states:
             for symbol in self._input_symbols:
-                state_to = []
-                eclose = self.eclose(state)
-                for state0 in eclose:
-                    state_to += self._transition_function(state0, symbol)
-                if not state_to:
+                if not enfa(state, symbol):
                     enfa.add_transition(state, symbol, trash)
         for symbol in self._input_symbols:
             enfa.add_transition(trash, symbol, trash)
